@@ -53,6 +53,14 @@ KeyedDeep ==
   {Arr(<<O2("id", N1, "v", x), O2("id", N2, "v", y)>>) :
      x \in {N1, Arr(<<N1>>), Arr(<<N1, N2>>), O1("k0", N1)}, y \in {N1, Arr(<<N2>>), O1("k0", N2)}}
 
+(* objects whose keys are hostile to JSON Pointer (C09, C10, C18): e0, e1 need escaping, em is the   *)
+(* empty key, n1 is "1", dash is "-", w0 is "01" (see KeyClass in JsonPatch.tla)                        *)
+PtrKeys == {"k0", "e0", "e1", "em", "n1", "dash", "w0"}
+PtrVals == {N1, EmptyArr, Arr(<<N1, N2>>), O1("e0", N1)}
+ObjPtr == UNION { {Obj(f) : f \in [D -> PtrVals]} : D \in {S \in SUBSET PtrKeys : Cardinality(S) <= 2} }
+PtrDeep == {O1(key, Arr(t)) : key \in {"e0", "em", "k0"}, t \in TuplesUpTo({N1, N2, O1("e1", N1)}, 3)}
+           \cup {Arr(<<O1(key, Arr(t))>>) : key \in {"e1", "k0"}, t \in TuplesUpTo({N1, N2}, 3)}
+
 (* type-confusable values for the equality oracle (C04) *)
 Confusable ==
   { Void, Null, Str(""), EmptyArr, EmptyObj, Num(0), Bool(FALSE), Bool(TRUE), Str("s0"),
